@@ -148,18 +148,20 @@ def wiring(ctx):
            where=fi.fq, construct="MeshOperators(fixed_sites=...)", loc=loc(fi, call),
            message=f"fixed_sites is built as {detail}", consequence="sites outside terminals are pinned, or a terminal is left free")
     # initial psi
+    from ..dataflow import guard_text_x, local_stored_in_attr
+    pname = local_stored_in_attr(fn, "psi_init") or "psi_init"
     stores = [n for n in own_nodes(fn) if isinstance(n, ast.Assign) and any(
-        isinstance(t, ast.Subscript) and isinstance(t.value, ast.Name) and t.value.id == "psi_init" for t in n.targets)]
+        isinstance(t, ast.Subscript) and isinstance(t.value, ast.Name) and t.value.id == pname for t in n.targets)]
     ok = len(stores) == 1
     det = {}
     if ok:
         s = stores[0]
         idx = s.targets[0].slice
-        g = guard_text(fn, s, pm)
+        g = guard_text_x(fn, s, pm)
         det = {"store": norm(s), "guards": g}
         ok = isinstance(fs, ast.Name) and isinstance(idx, ast.Name) and idx.id == fs.id and \
             expanded_text(fn, s.value) in ("options.terminal_psi", "self.options.terminal_psi") and \
-            any(x in ("(terminal_psi is not None)", "(options.terminal_psi is not None)") for x in g)
+            any(x in ("(options.terminal_psi is not None)", "(self.options.terminal_psi is not None)") for x in g)
     ctx.ob("R06.3", "psi_init[fixed_sites] = terminal_psi under `terminal_psi is not None`", ok, detail=det, where=fi.fq,
            construct="psi_init[...] = terminal_psi", loc=loc(fi, stores[0]) if stores else "",
            message=f"initial terminal value wiring is {det}",
